@@ -1,0 +1,11 @@
+//go:build verif
+
+package ring
+
+// Verification hooks for property C13 (build tag `verif`): add-only, no behaviour.
+
+// VerifUpdatePartitionRing is what the KV watch callback of the PartitionRingWatcher does with a
+// new descriptor (updatePartitionRing), without a KV store.
+func (w *PartitionRingWatcher) VerifUpdatePartitionRing(desc *PartitionRingDesc) error {
+	return w.updatePartitionRing(desc)
+}
